@@ -29,7 +29,17 @@ func runC10Stats(c *core.Ctx) {
 	fresh := func() *model { return &model{gran: 10} }
 	s := stat.NewSummaryStatistics()
 	md := fresh()
+	// one history in twelve holds same-signed values near the top of the float64 range: the sum leaves the range
+	// (by additions or by a reweighting) and must from then on be the infinity of that sign
+	huge := r.P(0.08)
+	hugeSign := float64(1 - 2*r.Intn(2))
+	if huge {
+		c.Count("stats_level.huge_same_signed", 1)
+	}
 	drawV := func() float64 {
+		if huge {
+			return hugeSign * r.LogUniform(1e304, 1.7e308)
+		}
 		switch r.Pick(4, 3, 2, 1, 1) {
 		case 0:
 			return float64(r.Range(-50, 50))
@@ -93,6 +103,12 @@ func runC10Stats(c *core.Ctx) {
 		}
 		want, _ := sum.Float64()
 		bound := (16+8*float64(md.lossy))*0x1p-53*abs + 1e-300
+		if huge && len(md.rawSum) == 0 && math.IsInf(want, 0) {
+			c.Count("stats_level.overflowed_same_sign_checks", 1)
+			if got := s.Sum(); got != want {
+				c.Failf("stats.sum.overflow", "after %s: Sum()=%v, the exact sum of %d same-signed items is beyond the float64 range (%v expected)", what, got, len(md.items), want)
+			}
+		}
 		if got := s.Sum(); !(math.Abs(got-want) <= bound) && abs < math.MaxFloat64/1024 {
 			c.Failf("stats.sum", "after %s: Sum()=%v, exact %v: |diff| %g > bound %g (%d items, %d lossy events)", what, got, want, math.Abs(got-want), bound, len(md.items), md.lossy)
 		}
@@ -154,6 +170,9 @@ func runC10Stats(c *core.Ctx) {
 				md.rawCount += a
 			case 2:
 				a := drawV()
+				if huge {
+					a = 0
+				}
 				what = "AddToSum"
 				s.AddToSum(a)
 				md.rawSum = append(md.rawSum, a)
